@@ -44,6 +44,10 @@ ops (every op prints exactly one line):
                                                        validator `<val>` with one entry per list element (`signRequest`: the answer of the first failing
                                                        entry, nothing stored unless all entries pass); one `<item>` per entry, after the request.
                                                        Entry refs: as for `sign`, and `x<id>` = the current bytes of message `<id>` (of any chain)
+  `reassign <ts> <id:mev,…>`                         → `ok|fail <item> <item> …`   `Keeper.ReassignOrphanedMessages` at block time `<ts>`; the list
+                                                       names the messages older than the block age, each with the MEV demand of its job (`reassign`)
+  `attest <ts> <id:mev:retry,…>`                     → `<item> <item> …` | `-`   `CheckAndProcessAttestedMessages` at block time `<ts>` over a queue whose
+                                                       evidence is error proofs on logic calls; per job: MEV demanded, retries left (`attest`)
   `q <op …>`                                         → first word of the op's answer
 `ref` says which bytes were signed: `c` the item's current ones, `o<k>` the k-th distinct byte string
 the item ever had (0-based, in order of first appearance), `g` unrelated bytes.
@@ -123,6 +127,16 @@ def parseWeights? (s : String) : Option Weights :=
   match s.splitOn ":" with
   | [f, u, sr, e, fs] => do
     pure { fee := ← parseInt? f, uptime := ← parseInt? u, successRate := ← parseInt? sr, execTime := ← parseInt? e, featureSet := ← parseInt? fs }
+  | _ => none
+
+def parseFlag2? (s : String) : Option (Nat × Bool × Bool) :=
+  match s.splitOn ":" with
+  | [i, m] => do pure (← parseNat? i, ← parseBool? m, false)
+  | _ => none
+
+def parseFlag3? (s : String) : Option (Nat × Bool × Bool) :=
+  match s.splitOn ":" with
+  | [i, m, r] => do pure (← parseNat? i, ← parseBool? m, ← parseBool? r)
   | _ => none
 
 def join (sep : String) (l : List String) : String := if l.isEmpty then "-" else sep.intercalate l
@@ -375,6 +389,18 @@ def stepRaw (d : DState) (args : List String) : DState × String :=
         let s' := idleBlocks d.s n
         ({ d with s := s' }, join " " (s'.queue.map showItem))
     | none => (d, "bad-op")
+  | ["reassign", t, fl] =>
+    match parseNat? t, (Driver.splitList fl).mapM parseFlag2? with
+    | some t, some fl =>
+      let res := reassign d.s t fl
+      ({ d with s := res.1 }, (if res.2 then "ok " else "fail ") ++ join " " (res.1.queue.map showItem))
+    | _, _ => (d, "bad-op")
+  | ["attest", t, fl] =>
+    match parseNat? t, (Driver.splitList fl).mapM parseFlag3? with
+    | some t, some fl =>
+      let s' := attest d.s t fl
+      ({ d with s := s' }, join " " (s'.queue.map showItem))
+    | _, _ => (d, "bad-op")
   | ["relayf", v] =>
     match parseNat? v with
     | some v =>
